@@ -9,10 +9,12 @@ fi
 # Variable/Hypothesis only inside sections
 /venv/bin/python tools/check_sections.py coq/theories
 mkdir -p ocaml/gen ocaml/bin coq/assumptions
-cd coq
-coq_makefile -f _CoqProject -o Makefile
-timeout 3000 make -j16
-cd ..
+rm -f coq/Makefile
+sh tools/build_coq.sh | tail -20
+# every source file must have produced its .vo
+miss=0
+for v in $(find coq/theories -name '*.v'); do [ -f "${v}o" ] || { echo "setup: $v did not compile" >&2; miss=1; }; done
+[ $miss = 0 ] || exit 1
 for f in ocaml/gen/*_model.ml; do
   id=$(basename "$f" _model.ml)
   (cd ocaml && ./build.sh "$id")
